@@ -240,4 +240,44 @@ def obligations():
         ob("leaves_ = Z.argmax(0)", bool(lv) and [e for e in calls if e[1] == lv[-1][3][1]][0][6] == ("attr", Zt, "argmax"))
         tr = [e for e in ev if e[0] == "store" and e[2] == "tree_"]
         ob("a fresh Tree() is created at each fit", len(tr) == 1 and tr[0][3][:1] == ("callres",) and tr[0][3][2] == "Tree" and not tr[0][4])
-    return list(agg.values())
+    return list(agg.values()) + tree_depth_obligations()
+
+
+def tree_depth_obligations():
+    """Tree.get_depth (the callee of the depth test of Kauri.fit): for EVERY integer node, the root 0 included, the depth
+    of that node; the whole-tree depth only when no node is given (FX, all tree sizes) + complete enumeration on the real class."""
+    from gemclus.tree.kauri import Tree
+    from .tree_predict import split_sequences, build_tree
+    fn = "gemclus.tree.kauri.Tree.get_depth"
+    sts = fx.Interp(Tree, inline_filter=lambda o, m: False).run_method("get_depth")
+    node, dep = ("var", "node"), ("attr", SELF, "depths")
+    isnone = ("cmp", ("Is",), (node, fx.C(None)))
+    ok = len(sts) == 2 and all(st.ended == "return" for st in sts)
+    for st in sts if ok else []:
+        if st.pc == [(isnone, True)]:
+            ok = ok and st.ret[:1] == ("callres",) and st.ret[2] == "max" and st.ret[3] == (dep,)
+        elif st.pc == [(isnone, False)]:
+            r = st.ret
+            ok = ok and r[0] == "item" and r[1] == dep and fx.strip(r[2]) in (
+                node, ("callres", None, "min", (("callres", None, "max", (node, fx.C(0)), ()), ("callres", None, "len", (dep,), ())), ()))
+        else:
+            ok = False
+    obs = [Ob("Tree.get_depth: the only case split is `node is None` (whole-tree depth); any integer node, 0 included, gets depths[node]",
+              PROVED if ok else REFUTED, "fx-dataflow", "P", {"paths": [[fx.show(c)[:80] for c, _ in st.pc] for st in sts]}, fn=fn)]
+    bad = None
+    n = 0
+    for seq in split_sequences(4):
+        t = build_tree(seq, [0] * len(seq), [0.0] * len(seq))
+        ref = {0: 0}
+        for i in range(t.n_nodes):
+            if t.children_left[i] != -1:
+                ref[t.children_left[i]] = ref[t.children_right[i]] = ref[i] + 1
+        for i in range(t.n_nodes):
+            n += 1
+            if t.get_depth(i) != ref[i]:
+                bad = bad or {"splits": list(seq), "node": i, "got": t.get_depth(i), "want": ref[i]}
+        if t.get_depth() != max(ref.values()):
+            bad = bad or {"splits": list(seq), "node": None, "got": t.get_depth(), "want": max(ref.values())}
+    obs.append(Ob("Tree.get_depth(i) == number of edges from the root to i, for every node of every tree with <= 4 leaves (complete enumeration)",
+                  PROVED if bad is None else REFUTED, "enumeration", "P", {"cases": n, "native": bad, "replayed": bad is not None}, fn=fn))
+    return obs
